@@ -1968,6 +1968,7 @@ func (ex *Exec) execLoopInv(st *State, spec *LoopSpec, ord int, node ast.Node, c
 	}
 	sort.Strings(names)
 	ex.havocAliases(st, h, roots)
+	ex.havocGhostState(h, body)
 	if h.ok != nil && ex.touchesAPI(body) {
 		h.ok = Fresh("ok", SBool)
 	}
@@ -2111,6 +2112,10 @@ func (ex *Exec) havocLike(st *State, old Val, k *Kind, hint string) Val {
 		g := map[string]Val{}
 		for name, gv := range x.Ghost {
 			g[name] = ex.havocLike(st, gv, nil, hint+"."+name)
+		}
+		if a := adtOf[x.K.Name]; a != nil {
+			// a datatype-modelled interface value is immutable: "modified" can only mean replaced by another value
+			return &ObjV{K: x.K, ID: Fresh(hint, a.Sort), Ghost: g}
 		}
 		return &ObjV{K: x.K, ID: x.ID, Ghost: g}
 	}
@@ -2265,6 +2270,7 @@ func (ex *Exec) execLoopInvRange(st *State, spec *LoopSpec, ord int, n *ast.Rang
 	ki := Fresh(kname, SInt)
 	h.store[kc] = SV{T: ki}
 	h.assume(Ge(ki, Zero))
+	ex.havocGhostState(h, n.Body)
 	if h.ok != nil && ex.touchesAPI(n.Body) {
 		h.ok = Fresh("ok", SBool)
 	}
@@ -2320,6 +2326,41 @@ func (ex *Exec) execGo(st *State, n *ast.GoStmt) []*State {
 		ex.traceEvent(st, "go:"+f.Name)
 	}
 	return []*State{st}
+}
+
+// havocGhostState: a loop body that calls anything or touches a channel may emit ghost trace events and write to
+// standard output; the ghost trace and the standard-output ghosts are unknown at the loop head.
+func (ex *Exec) havocGhostState(h *State, body ast.Node) {
+	found := false
+	ast.Inspect(body, func(x ast.Node) bool {
+		switch y := x.(type) {
+		case *ast.CallExpr, *ast.SendStmt, *ast.GoStmt:
+			found = true
+		case *ast.UnaryExpr:
+			if y.Op == token.ARROW {
+				found = true
+			}
+		}
+		return !found
+	})
+	if !found {
+		return
+	}
+	if _, ok := h.store[theTraceCell]; ok {
+		h.store[theTraceCell] = SV{T: Fresh("trace", SInt)}
+	}
+	if c, ok := ex.ghostCells["stdoutWrites"]; ok {
+		if _, live := h.store[c]; live {
+			w := Fresh("stdoutWrites", SInt)
+			h.assume(Ge(w, Zero))
+			h.store[c] = SV{T: w}
+		}
+	}
+	if c, ok := ex.ghostCells["stdoutLast"]; ok {
+		if v, live := h.store[c]; live {
+			h.store[c] = ex.havocLike(h, v, nil, "stdoutLast")
+		}
+	}
 }
 
 // touchesAPI reports whether a statement can emit constraints (mentions the api value at all).
